@@ -74,6 +74,11 @@ func runIsolated(prop string, cases []caseT, perCase time.Duration, workdir stri
 		batchLimit := perCase*time.Duration(n)/4 + 2*perCase + 30*time.Second
 		ctx, cancel := context.WithTimeout(context.Background(), batchLimit)
 		cmd := exec.CommandContext(ctx, os.Args[0], "-prop", prop, "-replay", in, "-out", outDir)
+		if v := os.Getenv("VERIF_CASE_MS_OVERRIDE"); v != "" {
+			if ms, err := strconv.Atoi(v); err == nil {
+				perCase = time.Duration(ms) * time.Millisecond
+			}
+		}
 		cmd.Env = append(os.Environ(), "VERIF_CHILD=1", fmt.Sprintf("VERIF_CASE_MS=%d", perCase.Milliseconds()), "GOTRACEBACK=none", "GORACE=halt_on_error=1 exitcode=66")
 		var stderr tailBuffer
 		cmd.Stderr = &stderr
